@@ -49,6 +49,26 @@ fn main() {
             std::fs::write(&args[7], serde_json::to_string_pretty(&rec).unwrap()).expect("write");
             0
         }
+        Some("fuzz-c10") => {
+            // pdlv fuzz-c10 <seed> <jobs> <runs>: the coverage-guided leg of C10 alone (trial runs)
+            let n = |i: usize, d: u64| args.get(i).and_then(|x| x.parse::<u64>().ok()).unwrap_or(d);
+            match c10::fuzz_campaign(n(2, 1), n(3, 2) as usize, n(4, 100_000)) {
+                Ok((p, inc)) => {
+                    println!("{} executions, {} corpus inputs, {} violations, inconclusive={inc}", p.evaluations, p.distinct, p.violations.len());
+                    for x in &p.notes {
+                        println!("  {x}");
+                    }
+                    for v in &p.violations {
+                        println!("  violation: {}\n---- text\n{}\n---- hex {}", v["detail"], v["text"].as_str().unwrap_or(""), v["input"]["hex"]);
+                    }
+                    if p.violations.is_empty() { 0 } else { 1 }
+                }
+                Err(e) => {
+                    eprintln!("{e}");
+                    2
+                }
+            }
+        }
         Some("ref") => {
             // pdlv ref <replay.json> [type]: what the reference model says about the recorded input
             let v: serde_json::Value = serde_json::from_str(&std::fs::read_to_string(&args[2]).expect("file")).expect("json");
